@@ -149,56 +149,60 @@ theorem send_spec (c : Cfg) (s : State) (m : Bytes) (h : Inv c s) :
         · simp only [receivedOf, deliveredOf]; rw [a3]; simp
         · intro h'; exact absurd h' hc
 
+/-- the callback body run on a state `t` that agrees with `s` except possibly for the timer
+flag, as a step of an op that accepts nothing (`fire`, `late`) -/
+theorem callback_spec_of_eq (c : Cfg) (s t : State) (op : Op) (h : Inv c s)
+    (e1 : t.pending = s.pending) (e2 : t.pendingSize = s.pendingSize) (e3 : t.queue = s.queue)
+    (e4 : t.closed = s.closed) (hacc : ∀ o, acceptedOf op o = []) :
+    StepSpec c s op (callback c t).1 (callback c t).2 := by
+  unfold callback
+  by_cases hc : t.closed = true
+  · rw [if_pos hc]
+    have hcs : s.closed = true := by rw [← e4]; exact hc
+    exact ⟨⟨by rw [e1, e2]; exact h.size_eq, by rw [e2]; exact h.size_le,
+        fun _ => by rw [e1]; exact h.closed_empty hcs,
+        fun hp => absurd (by rw [e1]; exact h.closed_empty hcs) hp⟩,
+      by simp, by simp [flushMsgs, hacc, e1], by simp [receivedOf, deliveredOf, e3],
+      fun _ => hc⟩
+  · rw [if_neg hc]
+    have hcs : ¬ s.closed = true := by rw [← e4]; exact hc
+    by_cases hp : t.pending.length = 0
+    · rw [if_pos hp]
+      have hnil : t.pending = [] := List.eq_nil_of_length_eq_zero hp
+      exact ⟨⟨by rw [e1, e2]; exact h.size_eq, by rw [e2]; exact h.size_le,
+          fun _ => hnil, fun hp' => absurd hnil hp'⟩,
+        by simp, by simp [flushMsgs, hacc, e1], by simp [receivedOf, deliveredOf, e3],
+        fun h' => absurd h' hcs⟩
+    · rw [if_neg hp]
+      obtain ⟨c1, c2, c3, c4, c5, c6, c7, c8, _⟩ :=
+        clearPending_spec c t (by rw [e1, e2]; exact h.size_eq) (by rw [e2]; exact h.size_le)
+      refine ⟨⟨?_, ?_, ?_, ?_⟩, ?_, ?_, ?_, ?_⟩
+      · rw [c1, c2]; rfl
+      · rw [c2]; exact Nat.zero_le _
+      · intro _; exact c1
+      · intro hp'; exact absurd c1 hp'
+      · intro f hf'
+        simp only [Option.some.injEq] at hf'
+        subst hf'
+        exact ⟨by rw [c4, e1], by rw [c5, c4], c6, by rw [← e3]; exact c7⟩
+      · simp only [flushMsgs, hacc]; rw [c1, c4, e1]
+      · simp only [receivedOf, deliveredOf, List.nil_append]
+        rw [c8, e3]
+      · intro h'; exact absurd h' hcs
+
 theorem fire_spec (c : Cfg) (s : State) (h : Inv c s) :
     StepSpec c s .fire (fire c s).1 (fire c s).2 := by
   unfold fire
   by_cases ha : s.timerArmed = true
   · rw [if_pos ha]
-    -- the state the callback sees: same as `s` but disarmed
-    have hs : ∀ t : State, t = { s with timerArmed := false } →
-        StepSpec c s .fire (callback c t).1 (callback c t).2 := by
-      intro t ht
-      have e1 : t.pending = s.pending := by rw [ht]
-      have e2 : t.pendingSize = s.pendingSize := by rw [ht]
-      have e3 : t.queue = s.queue := by rw [ht]
-      have e4 : t.closed = s.closed := by rw [ht]
-      unfold callback
-      by_cases hc : t.closed = true
-      · rw [if_pos hc]
-        have hcs : s.closed = true := by rw [← e4]; exact hc
-        exact ⟨⟨by rw [e1, e2]; exact h.size_eq, by rw [e2]; exact h.size_le,
-            fun _ => by rw [e1]; exact h.closed_empty hcs,
-            fun hp => absurd (by rw [e1]; exact h.closed_empty hcs) hp⟩,
-          by simp, by simp [flushMsgs, acceptedOf, e1], by simp [receivedOf, deliveredOf, e3],
-          fun _ => hc⟩
-      · rw [if_neg hc]
-        have hcs : ¬ s.closed = true := by rw [← e4]; exact hc
-        by_cases hp : t.pending.length = 0
-        · rw [if_pos hp]
-          have hnil : t.pending = [] := List.eq_nil_of_length_eq_zero hp
-          exact ⟨⟨by rw [e1, e2]; exact h.size_eq, by rw [e2]; exact h.size_le,
-              fun _ => hnil, fun hp' => absurd hnil hp'⟩,
-            by simp, by simp [flushMsgs, acceptedOf, e1], by simp [receivedOf, deliveredOf, e3],
-            fun h' => absurd h' hcs⟩
-        · rw [if_neg hp]
-          obtain ⟨c1, c2, c3, c4, c5, c6, c7, c8, _⟩ :=
-            clearPending_spec c t (by rw [e1, e2]; exact h.size_eq) (by rw [e2]; exact h.size_le)
-          refine ⟨⟨?_, ?_, ?_, ?_⟩, ?_, ?_, ?_, ?_⟩
-          · rw [c1, c2]; rfl
-          · rw [c2]; exact Nat.zero_le _
-          · intro _; exact c1
-          · intro hp'; exact absurd c1 hp'
-          · intro f hf'
-            simp only [Option.some.injEq] at hf'
-            subst hf'
-            exact ⟨by rw [c4, e1], by rw [c5, c4], c6, by rw [← e3]; exact c7⟩
-          · simp only [flushMsgs, acceptedOf]; rw [c1, c4, e1]
-          · simp only [receivedOf, deliveredOf, List.nil_append]
-            rw [c8, e3]
-          · intro h'; exact absurd h' hcs
-    exact hs _ rfl
+    exact callback_spec_of_eq c s { s with timerArmed := false } .fire h rfl rfl rfl rfl
+      (fun o => by simp [acceptedOf])
   · rw [if_neg ha]
     exact ⟨h, by simp, by simp [flushMsgs, acceptedOf], by simp [receivedOf, deliveredOf], fun h' => h'⟩
+
+theorem late_spec (c : Cfg) (s : State) (h : Inv c s) :
+    StepSpec c s .late (callback c s).1 (callback c s).2 :=
+  callback_spec_of_eq c s s .late h rfl rfl rfl rfl (fun o => by simp [acceptedOf])
 
 theorem close_spec (c : Cfg) (s : State) (h : Inv c s) :
     StepSpec c s .close (close c s).1 (close c s).2 := by
@@ -242,6 +246,7 @@ theorem step_spec (c : Cfg) (s : State) (op : Op) (h : Inv c s) :
   | fire => exact fire_spec c s h
   | close => exact close_spec c s h
   | recv => exact recv_spec c s h
+  | late => exact late_spec c s h
 
 /-- the invariant holds in every reachable state -/
 theorem inv_run (c : Cfg) (s : State) (ops : List Op) (h : Inv c s) : Inv c (run c s ops).1 := by
@@ -367,6 +372,24 @@ theorem pending_nonempty_implies_timer_armed (c : Cfg) (ops : List Op)
   cases hc : (run c init ops).1.closed with
   | false => rfl
   | true => exact absurd (hi.closed_empty hc) h
+
+/-- **the unarmed callback is harmless.**  The real callback *can* run while the timer is
+unarmed (it was dispatched, blocked on the mutex, and meanwhile `Send` called `Cancel`).  In
+any state satisfying the invariant — every reachable one — such a run changes nothing and
+emits nothing (unarmed ⇒ nothing pending).  Hence enabling `fire` only while armed loses no
+behaviour; the `late` step keeps the armed late-callback schedules in the model as well. -/
+theorem callback_unarmed_noop (c : Cfg) (s : State) (h : Inv c s) (hu : s.timerArmed = false) :
+    (callback c s).1 = s ∧ (callback c s).2.flush = none := by
+  have hp : s.pending = [] := by
+    apply Classical.byContradiction
+    intro hne
+    have := h.armed hne
+    rw [hu] at this
+    cases this
+  unfold callback
+  by_cases hc : s.closed = true
+  · simp [hc]
+  · simp [hc, hp]
 
 /-- an armed timer that fires on pending messages flushes all of them -/
 theorem fire_flushes_pending (c : Cfg) (s : State) (ha : s.timerArmed = true)
